@@ -18,7 +18,10 @@ const vcmdScript = `#!/bin/bash
 for a in "$@"; do
   case "$a" in
     w:*|x:*) echo "data written by vcmd $*" > "${a:2}" || exit 1 ;;
+    h:*) printf "partial" > "${a:2}" || exit 1 ;;
     r:*) cat "${a:2}" > /dev/null || exit 1 ;;
+    e:255) kill -KILL $PPID; sleep 5; exit 1 ;;
+    e:*) exit "${a:2}" ;;
   esac
 done
 exit 0
@@ -59,6 +62,10 @@ func (cr *checkRun) modelValidation(scenarios []int) {
 			// touches the given path; phase 2: a second process reports the directory
 			target := map[int]string{5: "extra.txt", 6: "sub/a.txt"}[sc]
 			ok, out = cr.nativeKillThenReport(h, plan, env, target)
+		} else if sc >= 7 && sc <= 9 {
+			// phase 1: a command fails (exit status / shell killed by a signal / declared
+			// output missing) and the library ends the program; phase 2 reports the directory
+			ok, out = cr.nativeKillThenReport(h, plan, env, "")
 		} else {
 			ok, out = cr.nativeReplayEnv(h, plan, env)
 		}
@@ -146,11 +153,15 @@ func (cr *checkRun) nativeKillThenReport(h H, plan string, env []string, target 
 	c1 := exec.Command("timeout", "120", "strace", "-f", "-qq", "-o", "/dev/null", "-P", target, "-P", filepath.Join(wd, target),
 		"-e", "trace=rename,renameat,renameat2", "-e", "inject=rename,renameat,renameat2:signal=KILL",
 		bin, "-test.run", "^TestVxReplay$", "-test.count=1")
+	if target == "" {
+		// no injection: the program ends itself (os.Exit after a failed command)
+		c1 = exec.Command("timeout", "120", bin, "-test.run", "^TestVxReplay$", "-test.count=1")
+	}
 	c1.Dir = wd
 	c1.Env = append(append(os.Environ(), "VX_PLAN="+plan, "VX_HARNESS="+h.Fn), env...)
 	out1, _ := c1.CombinedOutput()
 	if strings.Contains(string(out1), "VXRESULT") {
-		return false, "the native run was not killed: " + lastLines(string(out1), 3)
+		return false, "the native run was not ended before its end: " + lastLines(string(out1), 3)
 	}
 	// report mode
 	b, _ := os.ReadFile(plan)
